@@ -3,7 +3,8 @@ import collections, json, os, random, re, shutil, subprocess, time
 import common
 
 PID = "C12"
-FN_ARITY = {"sq": 1, "madd": 2, "pair": 2, "nest": 2}
+FN_ARITY = {"sq": 1, "madd": 2, "pair": 2, "nest": 2, "perm": 2, "perm2": 2}
+VALUE_DEPENDENT = ("poly", "perm", "perm2")
 
 
 def gen_scenario(rnd, special=None):
@@ -16,7 +17,7 @@ def gen_scenario(rnd, special=None):
             d = "t%d" % k; k += 1
             steps.append(["bin", d, rnd.choice(["add", "sub", "mul", "mul"]), rnd.choice(names), rnd.choice(names + [3, -1])]); names.append(d)
         elif t < 0.85:
-            fn = special if (special and rnd.random() < 0.5) else rnd.choice(list(FN_ARITY))
+            fn = special if (special and rnd.random() < 0.5) else rnd.choice(["sq", "madd", "pair", "nest"])
             ar = FN_ARITY.get(fn, 1)
             d = "r%d" % k; k += 1
             steps.append(["call", fn, [rnd.choice(names) for _ in range(ar)], d])
@@ -59,11 +60,11 @@ def oracle(sc, res):
     p = res["p"]; files = res["files"]
     if res["error"]:
         if "Inconsistent" in res["error"] and sc.get("special") == "iszero": bad("inconsistent-contexts-subqap-one", "a sub-circuit that uses a comparison / LinComb.ONE fails at proving time: " + res["error"][:160])
-        elif "Inconsistent functions" in res["error"] and sc.get("special") == "poly": pass          # the inconsistency is reported, as required
+        elif "Inconsistent functions" in res["error"] and sc.get("special") in VALUE_DEPENDENT: pass          # the inconsistency is reported, as required
         else: bad("error:" + res["error"].split(":")[0], "scenario raised " + res["error"][:200])
         return out, {}
-    if sc.get("special") == "poly":
-        kinds = {tuple(c[1]) and (c[1][0] % 2) for c in res["calls"] if c[0] == "poly"}
+    if sc.get("special") in VALUE_DEPENDENT:
+        kinds = {tuple(c[1]) and (c[1][0] % 2) for c in res["calls"] if c[0] == sc["special"]}
         if len(kinds) > 1: bad("inconsistent-function-not-reported", "calls of one function with different equation sets were accepted without an error")
     vals = {}
     for fn in ("pysnark_wires", "pysnark_values"):
@@ -149,7 +150,7 @@ def run(tier, seed):
     n = 40 if tier == "quick" else 400
     scs = [json.load(open(os.path.join(common.VERIF, "corpus", PID, f))) for f in sorted(os.listdir(os.path.join(common.VERIF, "corpus", PID))) if f.endswith(".json")]
     for i in range(n):
-        scs.append(gen_scenario(rnd, special=("iszero" if i % 13 == 5 else "poly" if i % 13 == 9 else None)))
+        scs.append(gen_scenario(rnd, special=("iszero" if i % 13 == 5 else "poly" if i % 13 == 9 else "perm" if i % 13 == 2 else "perm2" if i % 13 == 11 else None)))
     from concurrent.futures import ThreadPoolExecutor
     with ThreadPoolExecutor(common.NPROC) as ex:
         results = list(ex.map(run_scenario, scs))
